@@ -1,7 +1,7 @@
 (* C03 — slicing and indexing select exactly the requested symbols, or refuse.
    For every codec with codec_ok, every sequence (as its code list xs) and every range. *)
 From Coq Require Import List NArith Bool Arith.
-From BioSeq Require Import Bits Codec SeqModel SeqProofs.
+From BioSeq Require Import Bits Codec Tables SeqModel SeqProofs VM Refine.
 Import ListNotations.
 
 (* in bounds: exactly b-a symbols, the i-th being the parent's (a+i)-th *)
@@ -68,6 +68,35 @@ Check C03_range_in_bounds :
     index C (encode (c_bits C) xs) 0 a b =
       Some (encode (c_bits C) (firstn (b - a) (skipn a xs))).
 
+(* ... in ANY history: whatever a script did before (edits, copies, reversals, ...), as long as the
+   list-of-symbols machine tracks it ([abs]), a nest of ranges that leaves the sequence at some
+   level makes every observation or copy of that slice panic, in both build profiles *)
+Theorem C03_out_of_bounds_slice_panics_in_any_history :
+  forall (C : codec) (dbg : bool), codec_ok C ->
+  forall (cvi cvt : N -> res N) (ic tc ac : codec) (stdt : list tres) (stdc : list (N * cres))
+         (st : state) (l : lstate) (r : N) (rs : list (N * N * N)) (xs : list N),
+  abs C st l -> lget l r = Some xs -> forms_ok rs = true -> lapply xs rs = None ->
+  let d := SD r rs in
+  let stepv := step C dbg cvi cvt ic tc ac stdt stdc st in
+  stepv (OCodes d) = None /\ stepv (OLen d) = None /\ stepv (ODisplay d) = None /\
+  stepv (OToOwned d) = None /\ stepv (ORevIter d) = None /\
+  (forall i, stepv (ONth d i) = None) /\ (forall i, stepv (OGet d i) = None) /\
+  (forall w, stepv (OWindows d w) = None) /\ (forall w, stepv (OChunks d w) = None) /\
+  stepv (OToUsize d) = None /\ stepv (OToRev d) = None.
+Proof. exact out_of_bounds_observation_panics. Qed.
+
+(* ... and positional access at or beyond the end of any slice reached in any history: the indexing
+   form panics, the optional accessor answers None (observation [0]) *)
+Theorem C03_access_beyond_end_in_any_history :
+  forall (C : codec) (dbg : bool), codec_ok C ->
+  forall (cvi cvt : N -> res N) (ic tc ac : codec) (stdt : list tres) (stdc : list (N * cres))
+         (st : state) (l : lstate) (d : sd) (xs : list N) (i : N),
+  abs C st l -> lslice l d = Some xs -> length xs <= N.to_nat i ->
+  step C dbg cvi cvt ic tc ac stdt stdc st (ONth d i) = None /\
+  exists st', step C dbg cvi cvt ic tc ac stdt stdc st (OGet d i) = Some st' /\
+              out st' = [0%N] :: out st.
+Proof. exact nth_beyond_end_panics. Qed.
+
 Print Assumptions C03_range_in_bounds.
 Print Assumptions C03_range_out_of_bounds_panics.
 Print Assumptions C03_all_range_forms.
@@ -76,3 +105,5 @@ Print Assumptions C03_reslicing_collapses.
 Print Assumptions C03_nth_in_bounds.
 Print Assumptions C03_nth_beyond_end_panics.
 Print Assumptions C03_get.
+Print Assumptions C03_out_of_bounds_slice_panics_in_any_history.
+Print Assumptions C03_access_beyond_end_in_any_history.
